@@ -55,7 +55,7 @@ def _mol(atoms):
     return m
 
 
-def _setup(env, atoms, shells, alignment, perm_seed, sort_grids, lmax):
+def _setup(env, atoms, shells, alignment, perm_seed, sort_grids, lmax, tag=""):
     """returns (grids object, bookkeeping dict).  shells: {symb: list of angular sizes per radial index}"""
     gcg = env.m.gen_cider_grid
     gi = env.m.grids_indexer
@@ -69,8 +69,8 @@ def _setup(env, atoms, shells, alignment, perm_seed, sort_grids, lmax):
 
     def radi_method(n_rad, chg, ia, **kwargs):
         symb = [s for s in shells if ELEMS[s] == chg][0]
-        r = arr_of("rad_%s" % symb, (n_rad,), dom="pos", lo="1/8", hi="8")
-        d = arr_of("dr_%s" % symb, (n_rad,), dom="pos", lo="1/8", hi="8")
+        r = arr_of("%srad_%s" % (tag, symb), (n_rad,), dom="pos", lo="1/8", hi="8")
+        d = arr_of("%sdr_%s" % (tag, symb), (n_rad,), dom="pos", lo="1/8", hi="8")
         book["rad"][symb], book["dr"][symb] = r, d
         return r, d
 
@@ -279,6 +279,28 @@ def h_build(env, atoms, shells, alignment, perm_seed, sort_grids, lmax, prune_pt
         book["restore"]()
 
 
+def h_second_build(env, atoms, shells_first, shells, alignment, perm_seed, sort_grids, lmax):
+    """history: a grid is built with one pruning / radial scheme, then - in the same process - another grid for the same elements with the
+    same (n_rad, n_ang) request and lmax but another pruning result and other radial points; the second grid must be the one its own
+    settings describe (same invariants and tables as a first build), not anything remembered from the first"""
+    g0, book0 = _setup(env, atoms, shells_first, alignment, perm_seed, sort_grids, lmax, tag="first_")
+    try:
+        ok, _ = env.attempt("first_build_returns", lambda: g0.build(sort_grids=sort_grids))
+    finally:
+        book0["restore"]()
+    if not ok:
+        return
+    g, book = _setup(env, atoms, shells, alignment, perm_seed, sort_grids, lmax)
+    try:
+        ok, _ = env.attempt("second_build_returns", lambda: g.build(sort_grids=sort_grids))
+        if not ok:
+            return
+        _invariants(env, g, book, "second_build")
+        _tables(env, g, book, atoms, shells, lmax)
+    finally:
+        book["restore"]()
+
+
 def _arrangements(tier):
     """(atoms, shells) configurations: angular sizes 1 and 6 (lmax 0 and 1), 1-3 radial shells per element"""
     out = [(("H",), {"H": (6, 1)}), (("H", "H"), {"H": (1, 6)}), (("H", "He"), {"H": (6, 1, 6), "He": (1,)}),
@@ -320,6 +342,9 @@ def tasks(tier):
                     lmax = 1 if ci % 2 == 0 else 2
                     cfg = dict(atoms=atoms, shells=shells, alignment=alignment, perm_seed=perm_seed, sort_grids=sort_grids, lmax=lmax)
                     out.append(Task(_name("build", **cfg), h_build, cfg, mods="grids"))
+    for atoms, first, second in [(("H",), {"H": (6, 6)}, {"H": (6, 1)}), (("H", "He"), {"H": (1, 6), "He": (6,)}, {"H": (6, 6), "He": (6,)})][:2 if tier == "thorough" else 1]:
+        cfg = dict(atoms=atoms, shells=second, alignment=1, perm_seed=0, sort_grids=True, lmax=1)
+        out.append(Task(_name("history/second_build_other_scheme", **cfg), h_second_build, dict(cfg, shells_first=first), mods="grids"))
     # density pruning (two rounds; kept/dropped decided by solver forking on 2 + 1 points)
     for ci, (atoms, shells) in enumerate(arr[:2] if tier == "quick" else arr[:6]):
         for alignment in ((1, 4) if tier == "quick" else (1, 2, 4, 8)):
@@ -337,7 +362,7 @@ def prepare(tier):
 META = dict(
     explanation="gen_atomic_grids_cider, CiderGrids.build/prune_by_density_ and AtomicGridsIndexer executed symbolically with PySCF's primitives replaced by contract stubs; "
                 "z3 decides weights/coords == all_weights/all_coords[idx_map], ownership, padding and the shell tables",
-    functions=['ciderpress/pyscf/gen_cider_grid.py: LMAX_DICT (tables/lmax_per_lebedev_size)', "ciderpress/pyscf/gen_cider_grid.py: gen_atomic_grids_cider, CiderGrids.gen_atomic_grids, build, prune_by_density_",
+    functions=['ciderpress/pyscf/gen_cider_grid.py: gen_atomic_grids_cider / CiderGrids.build twice in one process with different pruning and radial schemes (history/second_build_other_scheme/*)', 'ciderpress/pyscf/gen_cider_grid.py: LMAX_DICT (tables/lmax_per_lebedev_size)', "ciderpress/pyscf/gen_cider_grid.py: gen_atomic_grids_cider, CiderGrids.gen_atomic_grids, build, prune_by_density_",
                "ciderpress/dft/grids_indexer.py: AtomicGridsIndexer.__init__, from_tabs, set_weights, set_idx, set_padding, get_idx"],
     bounds=dict(atoms="1-3 atoms of 1-2 element types", shells="1-3 radial shells per element, angular sizes 1/6 (and 14 thorough) in every order", alignment="1,4 quick; 1,2,4,8 thorough",
                 permutation="identity, reversal, seeded shuffles (not all permutations)", pruning="two rounds; kept/dropped symbolic on 2 points in round one and 1 point in round two (solver forking), all other points kept, padding dropped", lmax="1, 2"),
